@@ -2,7 +2,9 @@ package unixsocket
 
 import (
 	"net"
+	"os"
 	"syscall"
+	"unsafe"
 
 	"github.com/criyle/go-sandbox/zzverif/sym"
 )
@@ -333,4 +335,73 @@ func VerifC19_HostilePeer() {
 			sym.Assert(m.recv.closes[fd] == 1, "a descriptor installed by the kernel was neither handed to the caller nor closed")
 		}
 	}
+}
+
+// VerifC19_Constructors: NewSocketPair / NewSocket with every step failing (symbolic):
+// socketpair, wrapping the descriptor (os.NewFile), duplicating it into a connection
+// (net.FileConn, e.g. EMFILE).  Whatever fails, every descriptor created is closed exactly
+// once - none leaks, and none is closed twice (a second close can hit a descriptor that
+// another goroutine has just been given under the same number).
+func VerifC19_Constructors() {
+	open := map[int]bool{}
+	closes := map[int]int{}
+	next := 20
+	files := map[*os.File]int{}
+	conns := map[*net.UnixConn]int{}
+	closeFd := func(fd int) error {
+		closes[fd]++
+		if !open[fd] {
+			return syscall.EBADF
+		}
+		delete(open, fd)
+		return nil
+	}
+	sym.Intercept("syscall.Socketpair", func(domain, typ, proto int) ([2]int, error) {
+		if sym.Bool("socketpair_fails") {
+			return [2]int{-1, -1}, syscall.EMFILE
+		}
+		open[10], open[11] = true, true
+		return [2]int{10, 11}, nil
+	})
+	sym.Intercept("syscall.SetNonblock", func(fd int, nb bool) error { return nil })
+	sym.Intercept("syscall.CloseOnExec", func(fd int) {})
+	sym.Intercept("syscall.Close", closeFd)
+	sym.Intercept("os.NewFile", func(fd uintptr, name string) *os.File {
+		f := new(os.File)
+		files[f] = int(fd)
+		return f
+	})
+	sym.Intercept("(*os.File).Close", func(f *os.File) error { return closeFd(files[f]) })
+	sym.Intercept("net.FileConn", func(f *os.File) (net.Conn, error) {
+		if sym.Bool("fileconn_fails") {
+			return nil, syscall.EMFILE // the duplicate could not be created
+		}
+		next++
+		open[next] = true
+		c := &net.UnixConn{}
+		conns[c] = next
+		return c, nil
+	})
+	sym.Intercept("(*net.conn).Close", func(c unsafe.Pointer) error {
+		for uc, fd := range conns {
+			if sym.InnerPtr(uc) == c {
+				return closeFd(fd)
+			}
+		}
+		sym.Assert(false, "model: Close of an unknown connection")
+		return nil
+	})
+	a, b, err := NewSocketPair()
+	for fd, n := range closes {
+		_ = fd
+		sym.Assert(n <= 1, "a descriptor was closed twice on a constructor's error path")
+	}
+	if err != nil {
+		sym.Reach("failed")
+		sym.Assert(a == nil && b == nil, "a failed constructor must not return sockets")
+		sym.Assert(len(open) == 0, "a descriptor leaked on a constructor's error path")
+		return
+	}
+	sym.Reach("built")
+	sym.Assert(a != nil && b != nil && len(open) == 2 && !open[10] && !open[11], "the pair owns exactly the two duplicated descriptors")
 }
